@@ -65,6 +65,8 @@ def run(db: ProgramDB, chk) -> None:
     from ..specs.discipline import check_pickle_hooks
     check_pickle_hooks(db, chk, "C19.R4-default-pickling", "hta.analyzers.critical_path_analysis", ["CPNode", "CPEdge", "_CPGraphData"])
     chk.floor("C19.R4-default-pickling", 6)
+    from .c09 import check_reset_before_accumulate
+    check_reset_before_accumulate(db, chk, "C19.R5-recomputation-on-a-restored-graph")    # restore -> critical_path() again must rebuild, not extend, the restored edge set
     m = db.mod(MOD)
     data_cls = m.cls("_CPGraphData")
     save = m.func("CPGraph.save")
@@ -273,10 +275,40 @@ def run(db: ProgramDB, chk) -> None:
     forced = {k.arg: lit(k.value) for k in nlg[0].keywords if k.arg in ("directed", "multigraph")}
     chk.ob("C19.R2-artefacts", "restore does not override graph kind", forced.get("directed", True) is True and forced.get("multigraph", False) in (False, None) or not forced,
            m.loc(nlg[0]), found=forced, accepted="directed / simple as recorded in the node-link data")
+    # the payload travels untouched: node_link_data(self) -> pickle.dump, and pickle.load -> node_link_graph -> CPGraph(..., G)
+    def uses_between(func, var, first_line, last_line, allowed_nodes):
+        out = []
+        for n in ast.walk(func):
+            if isinstance(n, ast.Name) and n.id == var and first_line < n.lineno <= last_line and not any(n is a or any(n is y for y in ast.walk(a)) for a in allowed_nodes):
+                st = n
+                while m.parent.get(id(st)) is not None and not isinstance(st, ast.stmt):
+                    st = m.parent.get(id(st))
+                txt = " ".join(ast.unparse(st).split())[:90]
+                if isinstance(st, ast.Expr) and isinstance(st.value, ast.Call) and call_name(st.value).split(".")[0] in ("logger", "logging", "print"):
+                    continue          # a read inside a log statement does not change the payload
+                if txt not in out:
+                    out.append(txt)
+        return out
+    dvar = next((H.name_id(t) for t, v, s_ in H.assignments(save) if v is nld[0]), None)
+    dumps = [c for c in H.calls(save) if call_name(c) == "pickle.dump" and c.args and H.name_id(c.args[0]) == dvar]
+    if dvar is None or len(dumps) != 1:
+        chk.ob("C19.R2-artefacts", "the node-link data is bound to a name and pickled once", None, m.loc(nld[0]), found={"name": dvar, "dumps": len(dumps)})
+    else:
+        touched = uses_between(save, dvar, nld[0].lineno, dumps[0].lineno, [dumps[0]])
+        chk.ob("C19.R2-artefacts", "the node-link data is pickled as produced (nothing reads or edits it between node_link_data and pickle.dump)", not touched, m.loc(nld[0]), found=touched or "untouched",
+               accepted="d = nx.node_link_data(self); pickle.dump(d, f)", why="stripping an attribute that 'can be rebuilt' (e.g. weight from the CPEdge) loses every weight that validation had clamped")
+    gvar = next((H.name_id(t) for t, v, s_ in H.assignments(restore) if v is nlg[0]), None)
+    inst_calls = [c for c in H.calls(restore) if call_name(c) == "CPGraph"]
+    if gvar is None or len(inst_calls) != 1:
+        chk.ob("C19.R2-artefacts", "the restored graph is bound to a name and installed once", None, m.loc(nlg[0]), found={"name": gvar, "constructions": len(inst_calls)})
+    else:
+        touched = uses_between(restore, gvar, nlg[0].lineno, inst_calls[0].lineno, [inst_calls[0]])
+        chk.ob("C19.R2-artefacts", "the unpickled graph is installed as read (nothing edits it between node_link_graph and CPGraph(...))", not touched, m.loc(nlg[0]), found=touched or "untouched",
+               accepted="G = nx.node_link_graph(data); CPGraph(None, t_full, rank, G)")
     # zip members
     zw = [c for c in H.calls(save) if isinstance(c.func, ast.Attribute) and c.func.attr == "write" and "zip" in ast.unparse(c.func.value).lower()]
     zipped = sorted(filter(None, (_path_name(save, c.args[0]) for c in zw)))
     chk.ob("C19.R2-artefacts", "zip contains exactly the three artefacts written", zipped == sorted(filter(None, roles_s.values())) and len(zipped) == 3,
            m.loc(save), found=zipped, accepted=sorted(filter(None, roles_s.values())),
            why="an artefact that is not archived is missing (or stale from an earlier save) at restore time")
-    chk.floor("C19.R2-artefacts", 12)
+    chk.floor("C19.R2-artefacts", 14)
